@@ -21,7 +21,8 @@ pub struct Event {
     /// position pick, decoded by `Plan::positions` against the case's length and period
     pub pick: u16,
     /// 1 = `clone()`; 2 = `target.clone_from(&instance)` with a used target; 3 = serde round trip (serde build,
-    /// otherwise a clone); 4 = `reset()` of every instance the check runs side by side (only in checks that ask
+    /// otherwise a clone); 5 = Display, Debug and the accessors are called (they must have no effect);
+    /// 4 = `reset()` of every instance the check runs side by side (only in checks that ask
     /// `due_reset()`; not an identity event: the check restarts its own window bookkeeping)
     pub mode: u8,
     /// the clone_from target's own earlier history (one price per input)
@@ -33,6 +34,11 @@ pub struct Event {
 #[derive(Clone, Debug, Serialize, Deserialize)]
 pub struct Plan {
     pub events: Vec<Event>,
+    /// non-zero: on about a quarter of the steps (chosen by this seed) a bar-fed instance that also has a
+    /// scalar path is fed `next(close)` instead of `next(&bar)`; the check's reference then sees the one-price
+    /// bar open = high = low = close that the scalar path stands for
+    #[serde(default)]
+    pub mix: u64,
 }
 
 #[derive(Clone, Debug, Serialize, Deserialize)]
@@ -42,6 +48,8 @@ pub struct TCase<C> {
 }
 
 struct Active {
+    mix: u64,
+    mcalls: u64,
     at: Vec<(usize, Event)>,
     calls: usize,
     rcalls: usize,
@@ -75,7 +83,7 @@ fn position(pick: u16, len: usize, n: usize) -> usize {
 /// were actually applied.
 pub fn with_plan<R>(plan: &Plan, len: usize, n: usize, f: impl FnOnce() -> R) -> (R, usize) {
     let at = plan.events.iter().map(|e| (position(e.pick, len, n), e.clone())).collect();
-    PLAN.with(|p| *p.borrow_mut() = Some(Active { at, calls: 0, rcalls: 0, applied: 0 }));
+    PLAN.with(|p| *p.borrow_mut() = Some(Active { mix: plan.mix, mcalls: 0, at, calls: 0, rcalls: 0, applied: 0 }));
     let _g = Guard;
     let r = f();
     let applied = PLAN.with(|p| p.borrow().as_ref().map(|a| a.applied).unwrap_or(0));
@@ -118,6 +126,12 @@ fn apply(ind: &mut Ind, cfg: &Cfg, e: &Event) {
                 Err(e) => panic!("deserialization of the instance's own bytes failed: {}", e),
             }
         }
+        5 => {
+            let _ = ind.display();
+            let _ = ind.debug();
+            let _ = ind.period();
+            let _ = ind.multiplier();
+        }
         _ => {
             let c = ind.clone();
             *ind = c;
@@ -141,6 +155,25 @@ pub fn step(ind: &mut Ind, cfg: &Cfg) {
             }
         }
     });
+}
+
+/// Call once per bar input of an instance that has a scalar path: true if this step is to go through
+/// `next(close)` instead of `next(&bar)`.
+#[inline]
+pub fn scalar_here() -> bool {
+    PLAN.with(|p| {
+        let mut b = p.borrow_mut();
+        match b.as_mut() {
+            Some(a) if a.mix != 0 => {
+                a.mcalls += 1;
+                let mut z = a.mix ^ a.mcalls.wrapping_mul(0x9E3779B97F4A7C15);
+                z = (z ^ (z >> 30)).wrapping_mul(0xBF58476D1CE4E5B9);
+                z = (z ^ (z >> 27)).wrapping_mul(0x94D049BB133111EB);
+                (z >> 40) % 4 == 0
+            }
+            _ => false,
+        }
+    })
 }
 
 /// Call once per input, before `step`: true if a reset of all side-by-side instances is scheduled here.
@@ -171,7 +204,7 @@ pub fn plan_with_resets() -> BoxedStrategy<Plan> {
         }
         e
     });
-    proptest::collection::vec(ev, 1..4).prop_map(|events| Plan { events }).boxed()
+    (proptest::collection::vec(ev, 1..4), prop_oneof![2 => Just(0u64), 1 => any::<u64>()]).prop_map(|(events, mix)| Plan { events, mix }).boxed()
 }
 pub fn wrap_resets<C: std::fmt::Debug + Clone + 'static>(s: BoxedStrategy<C>) -> BoxedStrategy<TCase<C>> {
     (s, plan_with_resets()).prop_map(|(case, plan)| TCase { case, plan }).boxed()
@@ -180,7 +213,7 @@ pub fn wrap_resets<C: std::fmt::Debug + Clone + 'static>(s: BoxedStrategy<C>) ->
 pub fn event() -> BoxedStrategy<Event> {
     (
         any::<u16>(),
-        prop_oneof![1 => Just(1u8), 4 => Just(2u8), 2 => Just(3u8)],
+        prop_oneof![1 => Just(1u8), 4 => Just(2u8), 2 => Just(3u8), 1 => Just(5u8)],
         proptest::collection::vec(prop_oneof![3 => 0.5f64..300.0, 1 => 1e-3f64..1.0, 1 => 1e3f64..1e6], 0..24),
         prop_oneof![3 => Just(0usize), 1 => 1usize..4, 1 => 5usize..40],
     )
@@ -189,7 +222,7 @@ pub fn event() -> BoxedStrategy<Event> {
 }
 
 pub fn plan() -> BoxedStrategy<Plan> {
-    proptest::collection::vec(event(), 1..3).prop_map(|events| Plan { events }).boxed()
+    (proptest::collection::vec(event(), 1..3), prop_oneof![2 => Just(0u64), 1 => any::<u64>()]).prop_map(|(events, mix)| Plan { events, mix }).boxed()
 }
 
 /// wrap a case strategy
